@@ -75,6 +75,8 @@ def ops_for(fnlabel):
     }
     if fnlabel in m:
         return m[fnlabel]
+    if fnlabel == 'XmlAttribute::normalized_value':
+        return ['info.attr_norm']
     if fnlabel.startswith('info::attr_value_from_name'):
         return ['info.attr_value']
     if fnlabel == 'XmlDocumentTypeDeclaration::node':
@@ -169,6 +171,8 @@ def search(pid, ob, repo, scratch):
     fn = ob.get('fn', '')
     if pid == 'C14' and ob.get('unit') == 'c13_tree':
         ops = ['dom.preorder_after_edits']
+    if pid == 'C11' and fn.startswith('info::attr_value_from_name'):
+        ops = ['info.attr_norm']
     if pid == 'C12' and fn.startswith('Context::'):
         ops = ['dom.views_after_edits']
     if pid == 'C12' and (fn.startswith('HasChildren::') or fn.endswith('::insert_by_id') or fn.endswith('::delete_by_id')):
